@@ -40,12 +40,21 @@ AlreadyNotified(node, memo, layer) ==
 InitDS(old, new, hasOld, pushNil) ==
   [os |-> IF ~hasOld THEN <<>> ELSE IF old = <<>> THEN (IF pushNil THEN <<NilItem>> ELSE <<>>) ELSE <<LinkItem(old[1])>>,
    ns |-> IF new = <<>> THEN (IF pushNil THEN <<NilItem>> ELSE <<>>) ELSE <<LinkItem(new[1])>>,
-   mo |-> <<>>, mn |-> <<>>, out |-> <<>>, added |-> <<>>, removed |-> <<>>, loads |-> {}, done |-> FALSE, err |-> FALSE]
+   mo |-> <<>>, mn |-> <<>>, out |-> <<>>, added |-> <<>>, removed |-> <<>>, loads |-> {}, done |-> FALSE, err |-> FALSE,
+   \* a store that fails once: the Load that the g-th duplicate check (alreadyNotified) starts with fails (g = 0: never);
+   \* sw = TRUE is the behaviour before fix e203d09 (the check answers "not reported yet" and forgets the link), FALSE the repaired one
+   g |-> 0, nc |-> 0, sw |-> FALSE]
+InitDSF(old, new, hasOld, pushNil, g, sw) == [InitDS(old, new, hasOld, pushNil) EXCEPT !.g = g, !.sw = sw]
+Glitch(ds) == ds.g > 0 /\ ds.nc + 1 = ds.g
 
-NotifyOld(ds, node, layer) == LET r == AlreadyNotified(node, ds.mo, layer)
-  IN [ds EXCEPT !.mo = r[2], !.loads = @ \cup r[3], !.removed = IF r[1] THEN @ ELSE Append(@, node)]
-NotifyNew(ds, node, layer) == LET r == AlreadyNotified(node, ds.mn, layer)
-  IN [ds EXCEPT !.mn = r[2], !.loads = @ \cup r[3], !.added = IF r[1] THEN @ ELSE Append(@, node)]
+NotifyOld(ds, node, layer) ==
+  IF Glitch(ds) THEN (IF ds.sw THEN [ds EXCEPT !.nc = @ + 1, !.removed = Append(@, node)] ELSE [ds EXCEPT !.nc = @ + 1, !.err = TRUE, !.done = TRUE])
+  ELSE LET r == AlreadyNotified(node, ds.mo, layer)
+       IN [ds EXCEPT !.nc = @ + 1, !.mo = r[2], !.loads = @ \cup r[3], !.removed = IF r[1] THEN @ ELSE Append(@, node)]
+NotifyNew(ds, node, layer) ==
+  IF Glitch(ds) THEN (IF ds.sw THEN [ds EXCEPT !.nc = @ + 1, !.added = Append(@, node)] ELSE [ds EXCEPT !.nc = @ + 1, !.err = TRUE, !.done = TRUE])
+  ELSE LET r == AlreadyNotified(node, ds.mn, layer)
+       IN [ds EXCEPT !.nc = @ + 1, !.mn = r[2], !.loads = @ \cup r[3], !.added = IF r[1] THEN @ ELSE Append(@, node)]
 
 Out(kind, k, ov, nv) == <<kind, k, ov, nv>>
 
